@@ -2,6 +2,7 @@
 package c09
 
 import (
+	"strconv"
 	"bytes"
 	"encoding/json"
 	"fmt"
@@ -42,6 +43,33 @@ func genCase(t *rapid.T) replay.Case {
 		c.Sched.Pauses = c.Sched.Pauses[:2]
 	}
 	c.Start = rapid.Int64Range(0, 1<<33).Draw(t, "start")
+	if rapid.IntRange(0, 4).Draw(t, "txnOutOfBlacklistedDb") == 0 {
+		// the stream stands in a blacklisted database when a transaction of another database is propagated the way Redis 7 does it:
+		// MULTI, SELECT <db>, commands, EXEC (the MULTI carries no database)
+		black := rapid.IntRange(0, 15).Draw(t, "blackDb")
+		c.Cfg.DbBlacklist = []int{black}
+		delete(c.Cfg.DbMap, black)
+		allowed := (black + rapid.IntRange(1, 15).Draw(t, "allowedDelta")) % 16
+		sel := func(db int) gen.SrcCmd { return gen.SrcCmd{Name: "SELECT", Args: []pbt.B{[]byte(strconv.Itoa(db))}} }
+		var cmds []gen.SrcCmd
+		cmds = append(cmds, sel(allowed))
+		for i, k := 0, rapid.IntRange(0, 2).Draw(t, "lead"); i < k; i++ {
+			cmds = append(cmds, gen.GenDataCmd().Draw(t, "leadCmd"))
+		}
+		cmds = append(cmds, sel(black))
+		for i, k := 0, rapid.IntRange(0, 2).Draw(t, "inBlack"); i < k; i++ {
+			cmds = append(cmds, gen.GenDataCmd().Draw(t, "blackCmd"))
+		}
+		cmds = append(cmds, gen.SrcCmd{Name: "MULTI"}, sel(allowed))
+		for i, k := 0, rapid.SampledFrom([]int{1, 2, 3, 5, 8}).Draw(t, "txnLen"); i < k; i++ {
+			cmds = append(cmds, gen.GenDataCmd().Draw(t, "txnCmd"))
+		}
+		cmds = append(cmds, gen.SrcCmd{Name: "EXEC"})
+		for i, k := 0, rapid.IntRange(0, 3).Draw(t, "tail"); i < k; i++ {
+			cmds = append(cmds, gen.GenDataCmd().Draw(t, "tailCmd"))
+		}
+		c.Cmds = cmds
+	}
 	return c
 }
 
